@@ -32,6 +32,9 @@ class World:
         st = s.cmd("setup_new", rng=self.rng, out="S")
         self.spk = bytes.fromhex(st.pk)
         self.pw = b"the password"
+        # an explicit KSF instance equivalent to the suite default, and the different ways of building parameter structs:
+        # neither may change which triples match
+        s.cmd("ksf_new", id="kdefault", param=1)
         self.regs = {}
         self.n = 0
         self.stats, self.viol = stats, viol
@@ -41,7 +44,8 @@ class World:
         key = (idu, ids, cred)
         if key not in self.regs:
             self.n += 1
-            f = proto.register(self.s, self.rng, "S", self.pw, cred, id_u=idu, id_s=ids, wire=False, tag="g%d" % self.n)
+            f = proto.register(self.s, self.rng, "S", self.pw, cred, id_u=idu, id_s=ids, wire=False, tag="g%d" % self.n,
+                               ksf="kdefault" if self.n % 2 else None, params_via=["new", "clone", "default", "literal"][self.n % 4])
             self.evals += 4
             if not f.ok:
                 self.regs[key] = None
@@ -74,13 +78,15 @@ class World:
         expect = m_u and m_s and m_c and cred_reg == cred_login
         s = self.s
         a = s.cmd("clogin_start", rng=self.rng, pw=self.pw, out_state="t.cl", out_msg="t.cq")
+        k = self.stats["triples"]
         b = s.cmd("slogin_start", rng=self.rng, setup="S", file=fh, req="t.cq", cred=cred_login, ctx=srv_e[2], id_u=srv_e[0], id_s=srv_e[1],
-                  out_state="t.sl", out_msg="t.cr")
+                  out_state="t.sl", out_msg="t.cr", params_via=["literal", "clone", "default"][k % 3])
         self.evals += 2
         if a.failed or b.failed:
             self.viol.append({"sig": "C05 login start failed for in-domain parameters", "what": "%s: %s %s" % (self.su, dict(a) if a.failed else "", dict(b) if b.failed else "")})
             return None
-        c = s.cmd("clogin_finish", state="t.cl", pw=self.pw, resp="t.cr", ctx=cli_e[2], id_u=cli_e[0], id_s=cli_e[1], out="t.cf")
+        c = s.cmd("clogin_finish", state="t.cl", pw=self.pw, resp="t.cr", ctx=cli_e[2], id_u=cli_e[0], id_s=cli_e[1], out="t.cf",
+                  ksf="kdefault" if (k // 3) % 2 else None, params_via=["new", "clone", "default", "literal"][(k // 2) % 4])
         self.evals += 1
         desc = {"suite": self.su, "why": why,
                 "registration": {"id_u": proto.short(reg_e[0]), "id_s": proto.short(reg_e[1]), "cred": proto.short(cred_reg)},
@@ -205,6 +211,11 @@ def run_job(job):
                 run((b"u", va), (b"u", vb, None), (b"u", vb, None), "collision: id_s differs only after a %d-byte common %s" % (n, lab))
                 run((None, None), (None, None, va), (None, None, vb), "collision: ctx differs only after a %d-byte common %s" % (n, lab))
                 run((None, None), (None, None, va), (None, None, va), "agree: long ctx")
+        # equal client and server identities are legitimate values like any other
+        for v in (b"", b"same", b"E" * 256):
+            run((v, v), (v, v, None), (v, v, None), "agree: id_u == id_s")
+            run((v, v), (v, v, b"c"), (v, v, b"c"), "agree: id_u == id_s")
+            run((v, v), (v, b"other", None), (v, v, None), "deviate: id_s at server start (from equal identities)")
         # swapped / crossed identities
         run((b"U", b"V"), (b"V", b"U", None), (b"V", b"U", None), "collision: identities swapped, registration vs login")
         run((b"U", b"V"), (b"U", b"V", None), (b"V", b"U", None), "collision: identities swapped, client vs server")
